@@ -46,6 +46,10 @@ pub struct BItem {
 pub struct BSession {
     pub items: Vec<BItem>,
     pub reply_ack: bool,
+    /// the frontend-side server has REPLY_ACK switched on although the proxy does not ask for
+    /// acknowledgements (e.g. the channel was attached before the feature was acknowledged):
+    /// requests then lack NEED_REPLY and nothing may be written back
+    pub server_ack_only: bool,
     pub shared_object: bool,
     pub shmem: bool,
     pub adapter_mutex: bool,
@@ -86,6 +90,7 @@ pub fn gen_bsession(t: &mut Tape, forced: Option<u64>, gates_open: bool) -> BSes
     BSession {
         items,
         reply_ack: t.chance(1, 2),
+        server_ack_only: t.chance(1, 3),
         shared_object: gates_open || t.chance(1, 2),
         shmem: gates_open || t.chance(1, 2),
         adapter_mutex: t.chance(1, 2),
@@ -140,7 +145,7 @@ pub fn run_bsession(sim: &Sim, sess: &BSession, seg_faults: bool) -> BResult {
         let m = Arc::new(Mutex::new(FrRecMut::default()));
         m.lock().unwrap().scripts = scripts;
         let mut h = FrontendReqHandler::new(m.clone()).expect("FrontendReqHandler::new");
-        h.set_reply_ack_flag(sess.reply_ack);
+        h.set_reply_ack_flag(sess.reply_ack || sess.server_ack_only);
         // SAFETY: dup of a valid socket fd.
         let d = unsafe { libc::dup(h.get_tx_raw_fd()) };
         sim.label_fd(h.as_raw_fd(), "frsrv");
@@ -150,7 +155,7 @@ pub fn run_bsession(sim: &Sim, sess: &BSession, seg_faults: bool) -> BResult {
         let dct = Arc::new(FrRecDirect::default());
         dct.inner.lock().unwrap().scripts = scripts;
         let mut h = FrontendReqHandler::new(dct.clone()).expect("FrontendReqHandler::new");
-        h.set_reply_ack_flag(sess.reply_ack);
+        h.set_reply_ack_flag(sess.reply_ack || sess.server_ack_only);
         // SAFETY: dup of a valid socket fd.
         let d = unsafe { libc::dup(h.get_tx_raw_fd()) };
         sim.label_fd(h.as_raw_fd(), "frsrv");
@@ -285,7 +290,7 @@ pub fn judge_b(prop: &str, sim: &Sim, sess: &BSession, res: &BResult, c01: bool)
     };
     if !sess.reply_ack {
         if !msgs.is_empty() {
-            return v("ack_without_reply_ack", "", format!("{} acknowledgements written although REPLY_ACK is off", msgs.len()));
+            return v("ack_without_reply_ack", "", format!("{} acknowledgements written although the proxy asked for none (its REPLY_ACK is off, no request carried NEED_REPLY; frontend-side server REPLY_ACK {})", msgs.len(), sess.server_ack_only));
         }
     } else {
         if msgs.len() != sent.len() {
@@ -366,8 +371,9 @@ pub fn describe(s: &BSession) -> String {
         })
         .collect();
     format!(
-        "proxy<->frontend-server reply_ack={} shared_object={} shmem={} mutex_adapter={} requests=[{}]",
+        "proxy<->frontend-server reply_ack={} server_ack_only={} shared_object={} shmem={} mutex_adapter={} requests=[{}]",
         s.reply_ack,
+        s.server_ack_only,
         s.shared_object,
         s.shmem,
         s.adapter_mutex,
